@@ -21,6 +21,7 @@ def cdE : Expr → Nat
   | .pre _ _ _ e => cdE e + 1
   | .infix _ _ _ l r => max (cdE l) (cdE r) + 1
   | .ifE _ _ c t (some e) => max (cdE c) (max (cdB t) (cdB e)) + 1
+  | .call _ _ (.member _ _ b _ _) args _ => max (cdE b + 2) (cdArgs args + args.length + 2)
   | .call _ _ _ args _ => cdArgs args + args.length + 2
   | .matchE _ _ c arms (some d) => max (cdE c) (max (cdE d) (cdArms arms + arms.length + litsLen arms + 3)) + 1
   | .list _ _ xs => cdEls xs + xs.length + 2
@@ -39,14 +40,9 @@ def cdArgs : List (String × Expr) → Nat
   | a :: as => max (cdE a.2) (cdArgs as)
 end
 
-/-- The right-hand side of a `let`: `l.len()` needs the fuel of `l` and two levels more. -/
-def cdL : Expr → Nat
-  | .call _ _ (.member _ _ b _ .dot) [] false => cdE b + 2
-  | e => cdE e
-
 mutual
 def cdS : Stmt → Nat
-  | .letS _ _ _ _ _ e => cdL e + 2
+  | .letS _ _ _ _ _ e => cdE e + 2
   | .exprS _ e => cdX e + 1
   | .whileS _ c body => max (cdE c) (cdBS body) + 1
   | .loopS _ body => cdBS body + 1
@@ -258,18 +254,19 @@ theorem cdE_pos (e : Expr) : 1 ≤ Frag.cdE e := by
   cases e <;> try (simp [Frag.cdE]; done)
   case ifE sp ty c t el => cases el <;> simp [Frag.cdE]
   case matchE sp ty c arms dflt => cases dflt <;> simp [Frag.cdE]
+  case call sp ty base args sw => cases base <;> simp [Frag.cdE]
 
 theorem cdB_pos (b : Block) : 1 ≤ Frag.cdB b := by
   obtain ⟨sp, ty, stmts, oe⟩ := b
   cases oe <;> simp [Frag.cdB]
 
-theorem okGArgs_mem : ∀ (args : List (String × Expr)), Frag.okGArgs args = true → ∀ a ∈ args, Frag.okGE a.2 = true := by
+theorem okGArgs_mem (fr : Bool) : ∀ (args : List (String × Expr)), Frag.okEArgs fr args = true → ∀ a ∈ args, Frag.okE fr a.2 = true := by
   intro args
   induction args with
   | nil => intro _ a ha; simp at ha
   | cons x xs ih =>
     intro h a ha
-    simp only [Frag.okGArgs, Bool.and_eq_true] at h
+    simp only [Frag.okEArgs, Bool.and_eq_true] at h
     rcases List.mem_cons.mp ha with rfl | ha
     · exact h.1
     · exact ih h.2 a ha
@@ -514,9 +511,9 @@ theorem updS_push (cs : CState) (L) (c0 : SCode) (env : CEnv) :
     ({ updS cs L c0 env with scopes := [] :: (updS cs L c0 env).scopes } : CState) =
       updS cs L c0 { env with scopes := [] :: env.scopes } := rfl
 
-theorem compile_gexpr : ∀ (fuel : Nat),
-    (∀ (e : Expr) (cs : CState), Frag.okGE e = true → Frag.cdE e ≤ fuel → CompGE fuel e cs) ∧
-    (∀ (b : Block) (cs : CState), Frag.okGB b = true → Frag.cdB b ≤ fuel → CompGB fuel b cs) := by
+theorem compile_gexpr (fr : Bool) : ∀ (fuel : Nat),
+    (∀ (e : Expr) (cs : CState), Frag.okE fr e = true → Frag.cdE e ≤ fuel → CompGE fuel e cs) ∧
+    (∀ (b : Block) (cs : CState), Frag.okEB fr b = true → Frag.cdB b ≤ fuel → CompGB fuel b cs) := by
   intro fuel
   induction fuel using Nat.strongRecOn with
   | _ fuel ih =>
@@ -536,7 +533,7 @@ theorem compile_gexpr : ∀ (fuel : Nat),
         rw [varsGE_pure e hp] at hws'
         rw [cgE_of_pure _ _ _ _ _ hp]
         exact compileExpr_pure_S (fuel + 1) e cs L c0 env hp (by have := depthE_le_cdE' e hp; omega) hws'.1
-      · cases e <;> try (simp only [Frag.okGE, Bool.false_eq_true] at hok)
+      · cases e <;> try (simp only [Frag.okE, Bool.false_eq_true] at hok)
         case int | bool | str | null | none => simp [Frag.pureE] at hp
         case ident => simp only [Frag.pureE] at hp; exact absurd hok hp
         case grouped sp e =>
@@ -553,7 +550,7 @@ theorem compile_gexpr : ∀ (fuel : Nat),
         case «infix» sp ty op l r =>
           simp only [Frag.pureE] at hp
           simp only [Frag.pureE, Bool.or_eq_true, Bool.and_eq_true] at hok
-          rcases hok with hpure | ⟨⟨hlog, hl⟩, hr⟩
+          rcases hok with hpure | ⟨⟨⟨hlog, hl⟩, hr⟩, _⟩
           · exact absurd (by simpa using hpure) hp
           · simp only [Frag.cdE] at hd
             simp only [Frag.wsGE, Frag.varsGE, Frag.callsGE, Bool.and_eq_true] at hws
@@ -575,9 +572,9 @@ theorem compile_gexpr : ∀ (fuel : Nat),
             all_goals (intro h; first | exact hor h | exact hand h)
         case ifE sp ty c t el =>
           cases el with
-          | none => simp [Frag.okGE] at hok
+          | none => simp [Frag.okE] at hok
           | some eb =>
-            simp only [Frag.okGE, Bool.and_eq_true] at hok
+            simp only [Frag.okE, Bool.and_eq_true] at hok
             obtain ⟨⟨hc, ht⟩, he⟩ := hok
             simp only [Frag.cdE] at hd
             simp only [Frag.wsGE, Frag.varsGE, Frag.callsGE, Bool.and_eq_true] at hws
@@ -634,9 +631,9 @@ theorem compile_gexpr : ∀ (fuel : Nat),
           simp only [List.append_assoc]
         case matchE sp ty c arms dflt =>
           cases dflt with
-          | none => simp [Frag.okGE] at hok
+          | none => simp [Frag.okE] at hok
           | some d =>
-            simp only [Frag.okGE, Bool.and_eq_true] at hok
+            simp only [Frag.okE, Bool.and_eq_true] at hok
             obtain ⟨⟨hc, harms⟩, hdd⟩ := hok
             simp only [Frag.cdE] at hd
             simp only [Frag.wsGE, Frag.varsGE, Frag.callsGE, Bool.and_eq_true] at hws
@@ -648,13 +645,13 @@ theorem compile_gexpr : ∀ (fuel : Nat),
             refine bind_run _ _ _ _ _ _ hC ?_
             refine bind_run _ _ _ _ _ _ (mangleLabel_run_S _ _ _ _ _) ?_
             refine bind_run _ _ _ _ _ _ (compileArmTests_run cs sp arms fuel
-              (fun a ha => (okGArms_mem arms harms a ha).1) (by omega) _ _ _) ?_
+              (fun a ha => (okGArms_mem fr arms harms a ha).1) (by omega) _ _ _) ?_
             refine bind_run _ _ _ _ _ _ (mangleLabel_run_S _ _ _ _ _) ?_
             simp only [Option.isSome_some, if_true]
             refine bind_run _ _ _ _ _ _ (emit_run_S _ _ _ _ _ _) ?_
             refine bind_run _ _ _ _ _ _ (compileArmBodies_run cs sp _ (Frag.cdArms arms) arms _ fuel
               (armTests_length _ _ _ _).symm
-              (fun a ha f' hM _ => ihE f' (by omega) a.2 cs (okGArms_mem arms harms a ha).2
+              (fun a ha f' hM _ => ihE f' (by omega) a.2 cs (okGArms_mem fr arms harms a ha).2
                 (by have := cdArms_mem arms a ha; omega))
               (by omega) _ _ _ (wsGArms_mem env.scopes (φOf cs) arms hv2 hc2)) ?_
             simp only []
@@ -665,8 +662,53 @@ theorem compile_gexpr : ∀ (fuel : Nat),
             refine bind_run _ _ _ _ _ _ (emit_run_S _ _ _ _ _ _) ?_
             rw [emit_run_S]
             simp only [List.append_assoc, List.cons_append, List.nil_append]
+        case index sp ty b i =>
+          simp only [Bool.and_eq_true] at hok
+          obtain ⟨⟨⟨_, hb⟩, hi⟩, _⟩ := hok
+          simp only [Frag.cdE] at hd
+          simp only [Frag.wsGE, Frag.varsGE, Frag.callsGE, Bool.and_eq_true] at hws
+          rw [resolved_append, callsOK_append] at hws
+          have hB := ihE fuel (Nat.le_refl _) b cs hb (by omega) L c0 env
+            (by simp only [Frag.wsGE, Bool.and_eq_true]; exact ⟨hws.1.1, hws.2.1⟩)
+          have hI := ihE fuel (Nat.le_refl _) i cs hi (by omega) L
+            (c0 ++ (cgE cs.currModule (ρS env.scopes) (φOf cs) b env.lm).1)
+            { env with lm := (cgE cs.currModule (ρS env.scopes) (φOf cs) b env.lm).2 }
+            (by simp only [Frag.wsGE, Bool.and_eq_true]; exact ⟨hws.1.2, hws.2.2⟩)
+          rw [compileExpr, cgE]
+          refine bind_run _ _ _ _ _ _ hB ?_
+          refine bind_run _ _ _ _ _ _ hI ?_
+          rw [emit_run_S]
+          simp only [List.append_assoc]
+        case member sp ty b name mop =>
+          cases mop <;> try (simp [Frag.okE] at hok; done)
+          simp only [Frag.okE, Bool.and_eq_true] at hok
+          simp only [Frag.cdE] at hd
+          have hB := ihE fuel (Nat.le_refl _) b cs hok.2 (by omega) L c0 env
+            (by simpa [Frag.wsGE, Frag.varsGE, Frag.callsGE] using hws)
+          rw [compileExpr, cgE]
+          refine bind_run _ _ _ _ _ _ hB ?_
+          simp only []
+          rw [emit_run_S, List.append_assoc]
         case call sp ty base args sw =>
-          obtain ⟨isp, ity, name, g, f, si, rfl, rfl, hthrow, hprint, hoka, hone⟩ := okGE_call_inv _ _ _ _ _ hok
+          rcases okGE_call_inv fr _ _ _ _ _ hok with
+            ⟨isp, ity, name, g, f, si, rfl, rfl, hthrow, hprint, hoka, hone⟩ | ⟨msp, mty, b, rfl, rfl, rfl, hfr, hb⟩
+          rotate_left
+          · -- `l.len()`
+            simp only [Frag.cdE] at hd
+            obtain ⟨f, rfl⟩ : ∃ f, fuel = f + 1 := ⟨fuel - 1, by have := cdE_pos b; omega⟩
+            have hB := ihE f (by omega) b cs hb (by omega) L c0 env
+              (by simpa [Frag.wsGE, Frag.varsGE, Frag.callsGE, Frag.varsGArgs, Frag.callsGArgs] using hws)
+            rw [compileExpr, cgE]
+            simp only [List.reverse_nil, List.map_nil]
+            rw [compileExprs]
+            refine bind_run _ _ _ (updS cs L c0 env) () _ rfl ?_
+            simp only [Bool.false_eq_true, if_false]
+            rw [compileExpr]
+            refine bind_run _ _ _ _ _ _ (bind_run _ _ _ _ _ _ hB (emit_run_S _ _ _ _ _ _)) ?_
+            refine bind_run _ _ _ _ _ _ (emit_run_S _ _ _ _ _ _) ?_
+            rw [emit_run_S]
+            simp only [List.length_nil, List.append_assoc, List.cons_append, List.nil_append]
+            rfl
           simp only [Frag.cdE] at hd
           simp only [Frag.wsGE, Frag.varsGE, Frag.callsGE, Bool.and_eq_true] at hws
           obtain ⟨hv, hcs⟩ := hws
@@ -683,7 +725,7 @@ theorem compile_gexpr : ∀ (fuel : Nat),
               simp only [List.mem_map, List.mem_reverse] at he
               obtain ⟨a, ha, rfl⟩ := he
               have := cdArgs_mem args a ha
-              exact ihE f' (by omega) a.2 cs (okGArgs_mem args hoka a ha) (by omega))
+              exact ihE f' (by omega) a.2 cs (okGArgs_mem fr args hoka a ha) (by omega))
             (by simp only [List.length_map, List.length_reverse]; omega) L c0 env
             (by
               intro e he
@@ -706,12 +748,12 @@ theorem compile_gexpr : ∀ (fuel : Nat),
     · intro b cs hok hd L c0 env hv hcalls
       obtain ⟨sp, ty, stmts, oe⟩ := b
       cases stmts with
-      | cons _ _ => simp [Frag.okGB] at hok
+      | cons _ _ => simp [Frag.okEB] at hok
       | nil =>
         cases oe with
-        | none => simp [Frag.okGB] at hok
+        | none => simp [Frag.okEB] at hok
         | some e =>
-          simp only [Frag.okGB] at hok
+          simp only [Frag.okEB] at hok
           simp only [Frag.cdB] at hd
           simp only [Frag.varsGB] at hv
           simp only [Frag.callsGB] at hcalls
@@ -782,7 +824,7 @@ theorem compile_xexpr : ∀ (fuel : Nat) (e : Expr) (cs : CState), Frag.okXE e =
          rw [emit_run_S, List.append_assoc]; rfl)
     case «infix» sp ty op l r =>
       by_cases hp : Frag.pureE (.infix sp ty op l r) = true
-      · exact (compile_gexpr (fuel + 1)).1 _ cs (by simp only [Frag.okGE, hp, Bool.true_or]) hd L c0 env hws
+      · exact (compile_gexpr false (fuel + 1)).1 _ cs (okE_okGE _ _ (by simp only [Frag.okGE, hp, Bool.true_or])) hd L c0 env hws
       have hnp : Frag.pureE (.infix sp ty op l r) = false := by simpa using hp
       simp only [Frag.okXE, hnp, Bool.false_or, Bool.and_eq_true, Bool.not_eq_eq_eq_not, Bool.not_true] at hok
       obtain ⟨⟨⟨hlog, hl⟩, hr⟩, _⟩ := hok
@@ -804,43 +846,15 @@ theorem compile_xexpr : ∀ (fuel : Nat) (e : Expr) (cs : CState), Frag.okXE e =
         simp only [List.append_assoc]
       all_goals (intro h; first | exact hor h | exact hand h)
     all_goals
-      exact (compile_gexpr (fuel + 1)).1 _ cs (by simpa [Frag.okXE] using hok) hd L c0 env hws
+      exact (compile_gexpr false (fuel + 1)).1 _ cs (okE_okGE _ _ (by simpa [Frag.okXE] using hok)) hd L c0 env hws
 
-/-- **`compileExpr` on the right-hand side of a `let`** (`cgL`). -/
-theorem compile_lexpr (fuel : Nat) (e : Expr) (cs : CState) (hok : Frag.okXE e = true ∨ Frag.lenCallOK e = true)
-    (hd : Frag.cdL e ≤ fuel) (L : List (String × String × Nat)) (c0 : SCode) (env : CEnv)
-    (hws : (Frag.resolved env.scopes (Frag.varsL e) && Frag.callsOK env.scopes (φOf cs) (Frag.callsL e)) = true) :
-    (compileExpr fuel e).run (updS cs L c0 env) =
-      ((), updS cs L (c0 ++ (cgL cs.currModule (ρS env.scopes) (φOf cs) e env.lm).1)
-        { env with lm := (cgL cs.currModule (ρS env.scopes) (φOf cs) e env.lm).2 }) := by
-  rcases hok with he | hlen
-  · rw [cgL_of_okXE _ _ _ he]
-    have hcd : Frag.cdL e = Frag.cdE e := by
-      cases e <;> try rfl
-      rename_i csp cty base args sw
-      cases base <;> try rfl
-      rename_i msp mty b nm mop
-      cases mop <;> try rfl
-      cases args <;> try rfl
-      cases sw <;> try rfl
-      simp [Frag.okXE, Frag.okGE] at he
-    rw [varsL_of_okXE he, callsL_of_okXE he] at hws
-    exact compile_xexpr fuel e cs he (by omega) L c0 env hws
-  · obtain ⟨csp, cty, msp, mty, b, rfl, hb⟩ := lenCallOK_inv hlen
-    simp only [Frag.cdL] at hd
-    obtain ⟨f, rfl⟩ : ∃ f, fuel = f + 2 := ⟨fuel - 2, by have := cdE_pos b; omega⟩
-    have hB := compile_xexpr f b cs hb (by omega) L c0 env hws
-    rw [compileExpr, cgL]
-    simp only [List.reverse_nil, List.map_nil]
-    rw [compileExprs]
-    refine bind_run _ _ _ (updS cs L c0 env) () _ rfl ?_
-    simp only [Bool.false_eq_true, if_false]
-    rw [compileExpr]
-    refine bind_run _ _ _ _ _ _ (bind_run _ _ _ _ _ _ hB (emit_run_S _ _ _ _ _ _)) ?_
-    refine bind_run _ _ _ _ _ _ (emit_run_S _ _ _ _ _ _) ?_
-    rw [emit_run_S]
-    simp only [List.length_nil, List.append_assoc, List.cons_append, List.nil_append]
-    rfl
+/-- **`compileExpr` on a value position** (`Frag.okV`). -/
+theorem compile_vexpr (fr : Bool) (fuel : Nat) (e : Expr) (cs : CState) (hok : Frag.okV fr e = true)
+    (hd : Frag.cdE e ≤ fuel) : CompGE fuel e cs := by
+  simp only [Frag.okV, Bool.or_eq_true] at hok
+  rcases hok with h | h
+  · exact compile_xexpr fuel e cs h hd
+  · exact (compile_gexpr fr fuel).1 e cs h hd
 
 theorem okGE_of_atom' : ∀ (n : Nat) (e : Expr), Frag.depthE e ≤ n → Frag.atomE e = true → Frag.okGE e = true := by
   intro n
